@@ -59,7 +59,8 @@ UNICODE_LINES = ["Mark: æøå", "   ", "\tMark: tab", "Mark: a # c", "# only co
                  "Simulate: Clock = abc", "Simulate: Block Time = abc", "Simulate: Scope Time = q", "Simulate: Run Counter = z",
                  "Simulate off: Run Time", "Watch: Run Time > 1", "Watch: Block > 1", "Watch: Connection Status = Connected", "0.5 Watch: T1 = 1", "    Mark: deep", "CmdA: 5", "CmdB", "Unknown thing: 1", "CmdNum: 5",
                  "CmdNum: lots", "CmdNum: lots", "CmdNum", "CmdFail", "CmdFailLater", "Pause: 5x", "Hold: abc",
-                 "Info", "Stop: now", "Wait: 0.25s", "Mark: m"]
+                 "Info", "Stop: now", "Wait: 0.25s", "Mark: m", "Alarm: T0 = 0", "Alarm: Run Time > 0.2s",
+                 "Macro: M", "Call macro: M", "    Frobnicate", "    Run counter: abc"]
 
 
 USER_UOD = ["CmdFail", "CmdNum", "CmdA"]   # UOD commands the operator issues from the UI (no arguments: CmdNum is rejected)
@@ -107,7 +108,21 @@ FAILING_METHODS = ["Mark: a\nCmdFail\nMark: b", "Mark: a\nCmdFailLater\nMark: b"
                    "Mark: a\nBase: zz\nMark: b", "Mark: a\nRun counter: x", "Mark: a\nCall macro: nosuch\nMark: b",
                    "Block: B\n    CmdFail\n    End block\nMark: c", "Watch: T0 = 0\n    Hold: 5x\nMark: a",
                    "Mark: a\nWait: banana", "Mark: a\nCmdNum: lots\nMark: b", "Mark: a\nRestart: 5\nMark: b",
-                   "Simulate: Clock = abc\nMark: a\nFrobnicate\nMark: b"]
+                   "Simulate: Clock = abc\nMark: a\nFrobnicate\nMark: b",
+                   # failing lines in the body of an Alarm that fires (the Alarm re-arms itself, resetting its subtree, in
+                   # the tick its body finishes) and in macros that are called repeatedly
+                   "Alarm: Run Time > 0.2s\n    Mark: x\n    Frobnicate\nMark: a\nWait: 5s\nMark: b",
+                   "Alarm: Run Time > 0.2s\n    Frobnicate\nMark: a\nMark: b\nMark: c",
+                   "Alarm: Run Time > 0.2s\n    Mark: x\n    Run counter: abc\nMark: a\nMark: b\nWait: 5s",
+                   "Alarm: Run Time > 0.2s\n    Run counter: abc\n    Mark: y\nWait: 5s",
+                   "Alarm: T0 = 0\n    Mark: x\n    Unknown thing: 1\nWait: 5s",
+                   "Alarm: Run Time > 0.2s\n    Mark: x\n    Watch: T0 = 0\n        Base: zz\nWait: 5s",
+                   "Alarm: Run Time > 0.2s\n    Mark: x\n    CmdFail\nWait: 5s",
+                   "Alarm: Run Time > 0.2s\n    Mark: x\n    Pause: 5x\nWait: 5s",
+                   "Watch: Run Time > 0.2s\n    Mark: x\n    Frobnicate\nMark: a\nWait: 5s",
+                   "Macro: M\n    Mark: x\n    Frobnicate\nCall macro: M\nCall macro: M\nMark: b",
+                   "Macro: M\n    Mark: x\nCall macro: M\nCall macro: M\nFrobnicate",
+                   "Macro: M\n    Mark: x\n    Wait: 0.25s\nCall macro: M\nCall macro: M\nRun counter: abc\nMark: b"]
 
 
 def sweep_cases() -> list[dict]:
@@ -123,8 +138,12 @@ def sweep_cases() -> list[dict]:
                 out.append({"pcode": m, "sched": sched, "end": "stop"})
     for m in FAILING_METHODS:
         for end in ("stop", "fix", "restart"):
-            out.append({"pcode": m, "sched": [("tick",)] * 8, "end": end})
+            out.append({"pcode": m, "sched": [("tick",)] * 14, "end": end})
     out.append({"pcode": FAILING_METHODS[0], "sched": [("tick",)] * 8, "end": "stop-then-fix"})
+    # a timed Pause of the method ended early by the operator, then a failing instruction around the time the Pause expires
+    for dur, marks, t in (("0.5s", 0, 5), ("1s", 1, 7), ("1s", 2, 5), ("1s", 2, 4), ("0.5s", 1, 3)):
+        out.append({"pcode": f"Pause: {dur}\n" + "Mark: a\n" * marks + "Frobnicate\nMark: c", "end": "stop",
+                    "sched": [("tick",)] * t + [("user", "Unpause")] + [("tick",)] * 12})
     # the operator presses Stop and right after it issues a UOD command that fails (before the same tick / one and
     # two ticks later); a failing operator command while the run executes, then Stop
     for cmd in ("CmdFail", "CmdNum"):
@@ -297,14 +316,21 @@ def _oracle(case, ins: Instrument) -> list[Failure]:
         interp = e.interpreter
         fresh = not any(i is interp for i in st["failed_interps"])
         se0 = ins.set_error_calls
+        names0 = list(e.registry.get_running_command_names())
         snap = run.tick()
         if snap["raised"]:
             fails.append(Failure("tick-raised:" + snap["raised"].split(":")[0], case, snap["raised"][:300]))
             return None
         if ins.interp_raised and fresh:
             st["failed_interps"].append(interp)
+        prog_before = st["prog"]
+        before = st["prev_failed"]
         failed = failed_now()
         new_failed = failed - st["prev_failed"]
+        if st["prog"] is prog_before and before - failed:
+            # same program, same node objects: an instruction that was marked failed is not any more
+            fails.append(Failure("failed-mark-lost", case,
+                                 f"lines {sorted(i for _, i in before - failed)} were marked failed and are no longer"))
         st["prev_failed"] = failed
         sysst, ms = raw(snap, "System State"), raw(snap, "Method Status")
         instr_failures = len(ins.interp_raised) + len([c for c in ins.cmd_failed if c[1] != "user"])
@@ -326,9 +352,13 @@ def _oracle(case, ins: Instrument) -> list[Failure]:
             if ms != "Error":
                 fails.append(Failure("failed-instruction-without-error-status", case, f"{what}, Method Status = {ms!r}"))
             elif sysst != "Paused" and not e._runstate_stopping:
+                # (recorded finding: a timed Pause of the method that the operator ended early with Unpause keeps waiting
+                #  for its duration; when it expires it unpauses whatever pause is then in effect — here the error pause)
+                site = ":timed-pause-expired-in-same-tick" if ("Pause" in names0 and "Pause" not in
+                                                               e.registry.get_running_command_names()) else ""
                 # (a Stop that started in the same command phase cancels a timed Pause of the method, which unpauses:
                 #  the run is stopping, one tick later it is Stopped)
-                fails.append(Failure("failed-instruction-did-not-pause", case, f"{what}, System State = {sysst!r}"))
+                fails.append(Failure("failed-instruction-did-not-pause" + site, case, f"{what}, System State = {sysst!r}"))
         if new_failed and sysst not in ("Stopped", "Restarting"):
             mstate = e.method_manager.get_method_state()
             ids = {i for _, i in new_failed if str(i).startswith("id_")}
